@@ -35,7 +35,9 @@ TRUSTED_BASE = [
 ASSUMPTIONS = [
     "reporter results are ints, None or lists of ints; agent-level values are immutable (ints / None)",
     "agent-type reporters are judged when the key class has no subclassed instances or no direct instances registered (quantifier)",
-    "frames: NaN is read as None and integral floats as ints (pandas' own column conversion is not part of the statement)",
+    "frames: NaN is read as None and integral floats as ints (pandas' own column conversion is not part of the statement); "
+    "values of other immutable types (bool, str, tuple, Decimal, Fraction, frozenset, dyadic floats, ints beyond 2^53; value "
+    "codes 10000.. in the histories and the Z-valued model) must come back as the very same value and type",
     "a collect during which a reporter itself raises: the oracle only demands that tables and the records of other steps stay "
     "untouched and no model_vars list shrinks or grows by more than one; the exact state left behind (C12_collect_raises_state) "
     "is compared model-vs-implementation by T2 (60 dedicated histories per quick run)",
@@ -225,7 +227,49 @@ def gen_cases(rng, tier):
     # collects during which a reporter raises (the state collect leaves behind: C12_collect_raises_state)
     for _ in range(60 if tier == "quick" else 600):
         cases.append(_gen_raising_case(rng))
+    # agent-level values of other immutable types (attribute a4): the frame cell must be the very same value and type
+    for _ in range(80 if tier == "quick" else 800):
+        cases.append(_gen_exotic_case(rng))
     return cases
+
+
+def _gen_exotic_case(rng):
+    """attribute a4 of every agent holds values of ONE family per history (a column mixing families is converted by
+    pandas itself, e.g. ints with floats): object-forcing (bool, str, tuple, Decimal, Fraction, frozenset; plus small
+    ints), dyadic floats (plus small ints), or ints beyond 2^53; reported by name, function and bound method, at agent
+    and agent-type level; values change between collects"""
+    fam = rng.choice([EXO_OBJECT, EXO_OBJECT, EXO_OBJECT + [3, 7], EXO_FLOAT + [3], EXO_BIGINT + [4]])
+    cfg = {"mreps": [[0, ["fun", False, ["steps"]]]] if rng.random() < 0.5 else [], "treps": [], "tables": [],
+           "areps": [[0, rng.choice([["attr", 4], ["fun", ["attr", 4]], ["method", ["attr", 4]]])]]}
+    if rng.random() < 0.5:
+        cfg["areps"].append([1, rng.choice([["fun", ["id"]], ["attr", 0], ["attr", 4]])])
+    if rng.random() < 0.5:
+        cfg["treps"] = [[rng.choice([1, 2, 5]), [[0, rng.choice([["attr", 4], ["fun", ["attr", 4]]])]]]]
+    ops, live, nxt = [], [], 1
+    for _ in range(rng.randint(1, 3)):
+        ops.append(["create", rng.choice([0, 2, 3]), [[0, nxt], [4, rng.choice(fam)]]])
+        live.append(nxt)
+        nxt += 1
+    for _ in range(rng.randint(4, 12)):
+        p = rng.random()
+        if p < 0.3:
+            ops.append(["collect"])
+        elif p < 0.45:
+            ops.append(["step"])
+        elif p < 0.7 and live:
+            ops.append(["aset", rng.choice(live), 4, rng.choice(fam)])
+        elif p < 0.8 and len(live) < 5:
+            ops.append(["create", rng.choice([0, 2, 3, 4]), [[0, nxt], [4, rng.choice(fam)]]])
+            live.append(nxt)
+            nxt += 1
+        elif p < 0.88 and live:
+            a = rng.choice(live)
+            live.remove(a)
+            ops.append(["remove", a])
+        else:
+            ops.append(["frames"])
+    ops += [["collect"], ["frames"]]
+    return {"cfg": cfg, "ops": ops}
 
 
 def _gen_raising_case(rng):
@@ -451,12 +495,41 @@ def _is_int(v):
     return isinstance(v, numbers.Integral) and not isinstance(v, bool)
 
 
+_EXOTIC = None
+
+
+def _exotic():
+    """immutable Python values of other types than int; value code 10000 + i in the histories (and in the Z-valued model)
+    stands for _exotic()[i]; the mapping is injective on (type, value)"""
+    global _EXOTIC
+    if _EXOTIC is None:
+        from decimal import Decimal
+        from fractions import Fraction
+
+        _EXOTIC = [True, False, "s", "", (1, "b"), Decimal("1.10"), Decimal("2"), Fraction(1, 3), Fraction(2, 1),
+                   frozenset({1, 2}), frozenset(), 0.5, 0.25, -1.5]
+    return _EXOTIC
+
+
+EXO_OBJECT = [10000 + i for i in range(11)]      # force an object column: bool, str, tuple, Decimal, Fraction, frozenset
+EXO_FLOAT = [10011, 10012, 10013]                # dyadic floats (a numeric column; ints in it come back as integral floats)
+EXO_BIGINT = [2 ** 60 + 1, -(2 ** 55 + 3), 2 ** 53 + 1]   # beyond the float mantissa (an int64 column)
+
+
+def _obj(v):
+    return _exotic()[v - 10000] if isinstance(v, int) and 10000 <= v < 10100 else v
+
+
 def _canon(v):
-    """canonical immutable form of a stored / framed value"""
+    """canonical immutable form of a stored / framed value; a value of an exotic type is its code only when it is the
+    very same value AND type as the table entry (so Decimal('1.10') read back as the float 1.1 is not)"""
     import math
 
     if v is None:
         return None
+    for i, o in enumerate(_exotic()):
+        if type(o) is type(v) and o == v:
+            return 10000 + i
     if _is_int(v):
         return int(v)
     if isinstance(v, float):
@@ -634,7 +707,7 @@ def run_impl(case):
                 if op[1] in CLASSES:
                     a = cls[op[1]](model)
                     for n, v in op[2]:
-                        setattr(a, _aname(n), v)
+                        setattr(a, _aname(n), _obj(v))
                     reg.append(a)
                     by_id[a.unique_id] = a
                     if a.unique_id != len(by_id):
@@ -651,7 +724,7 @@ def run_impl(case):
             elif kind == "aset":
                 a = by_id.get(op[1])
                 if a is not None and a in reg:
-                    setattr(a, _aname(op[2]), op[3])
+                    setattr(a, _aname(op[2]), _obj(op[3]))
                 else:
                     code = [-2]
             elif kind == "step":
